@@ -9,7 +9,7 @@ File model.  An scool file has a fixed shape, so it is modelled by layers instea
 a *dataset object* (`DS`), a *table* = a group holding dataset links (`chroms`, `bins`, `pixels`,
 `indexes`), a *collection* = a group holding table links plus attributes (`/cells/x`), and the file
 (root attributes, root tables, the `/cells` group).  Every HDF5 object carries its object id
-(`NodeId`, what `h5py.h5o.get_info(..).addr` / h5py object equality observes); a **hard link** to an
+(`Nat`, what `h5py.h5o.get_info(..).addr` / h5py object equality observes); a **hard link** to an
 existing object is that very object (same id, same content) under another name, a newly created
 object takes the next unused id.  Nothing in C17 writes through one link and reads through another,
 so sharing-by-id with the content stored in place is an adequate reading of hard links.
@@ -22,6 +22,7 @@ the code-point order (`String` `≤`).
 namespace Cooler.Scool
 open Cooler
 
+/-- object ids are natural numbers (`NodeId` in DESIGN.md) -/
 abbrev NodeId := Nat
 
 inductive Data
@@ -32,13 +33,13 @@ deriving DecidableEq, Repr, Inhabited
 
 /-- a dataset object -/
 structure DS where
-  id : NodeId
+  id : Nat
   data : Data
 deriving DecidableEq, Repr, Inhabited
 
 /-- a group whose links are datasets -/
 structure Table where
-  id : NodeId
+  id : Nat
   cols : List (String × DS)
 deriving DecidableEq, Repr, Inhabited
 
@@ -52,7 +53,7 @@ abbrev Attrs := List (String × AttrVal)
 
 /-- a data collection group (`/cells/x`) -/
 structure Coll where
-  id : NodeId
+  id : Nat
   attrs : Attrs
   tables : List (String × Table)
 deriving DecidableEq, Repr, Inhabited
@@ -60,9 +61,9 @@ deriving DecidableEq, Repr, Inhabited
 structure SFile where
   attrs : Attrs                         -- root attributes
   tables : List (String × Table)        -- root `chroms`, `bins`
-  cellsId : Option NodeId               -- the `/cells` group, once it exists
+  cellsId : Option Nat               -- the `/cells` group, once it exists
   cells : List (String × Coll)          -- its links
-  next : NodeId                         -- first unused object id
+  next : Nat                         -- first unused object id
 deriving DecidableEq, Repr, Inhabited
 
 def MAGIC := "HDF5::Cooler"
@@ -136,7 +137,7 @@ def cellBlock (t : BinsIn) : Nat := 9 + t.extras.length
 /-- the collection `create(.., append_scool=True)` builds for one cell; `gid` = first unused id.
     `chroms` and `bins/{chrom,start,end}` are hard links to the root's objects; the further bin
     columns, the pixel table, the indexes and the attributes are the cell's own. -/
-def mkColl (gid : NodeId) (rootChroms : Table) (dChrom dStart dEnd : DS) (t : BinsIn) (px : Pixels)
+def mkColl (gid : Nat) (rootChroms : Table) (dChrom dStart dEnd : DS) (t : BinsIn) (px : Pixels)
     (symm : Bool) : Coll :=
   let extra := t.extras.zipIdx.map fun p => (p.1.1, (⟨gid + 9 + p.2, .strs p.1.2⟩ : DS))
   let nbins := t.rows.length
@@ -298,7 +299,7 @@ def readExtras (f : SFile) (x : String) : Option (List (String × DS)) :=
     | none => none
 
 /-- object ids behind the shared links of a collection: chroms group, bins/chrom, bins/start, bins/end -/
-def sharedIds (tables : List (String × Table)) : Option (NodeId × NodeId × NodeId × NodeId) :=
+def sharedIds (tables : List (String × Table)) : Option (Nat × Nat × Nat × Nat) :=
   match tables.lookup "chroms", tables.lookup "bins" with
   | some c, some b =>
     match b.cols.lookup "chrom", b.cols.lookup "start", b.cols.lookup "end" with
@@ -306,7 +307,44 @@ def sharedIds (tables : List (String × Table)) : Option (NodeId × NodeId × No
     | _, _, _ => none
   | _, _ => none
 
-/-- cell names the property talks about: usable as one HDF5 link name -/
-def validName (x : String) : Bool := x != "" && !hasSlash x && x != "."
+/-- "::" separates file path and group path in a cooler URI -/
+def hasDoubleColon (s : String) : Bool :=
+  (s.toList.zip s.toList.tail).any fun p => p.1 == ':' && p.2 == ':'
+
+/-- cell names the property talks about: usable as one HDF5 link name (non-empty, no '/', not the
+    self-reference ".") and addressable by a cooler URI `file::/cells/<name>` (no "::") -/
+def validName (x : String) : Bool := x != "" && !hasSlash x && x != "." && !hasDoubleColon x
+
+/-! ### the property's domain (vocabulary shared by the theorems and the driver) -/
+
+/-- the table handed to `create` for each key, and the common three columns -/
+def binsDictOf (bins : BinsArg) (pixels : List (String × Pixels)) : List (String × BinsIn) :=
+  match bins with
+  | .common t => pixels.map fun p => (p.1, t)
+  | .perCell d => d
+
+def commonRows : BinsArg → List BinRow
+  | .common t => t.rows
+  | .perCell [] => []
+  | .perCell ((_, first) :: _) => first.rows
+
+def rootExtras : BinsArg → List (String × List String)
+  | .common t => t.extras
+  | .perCell _ => []
+
+/-- executable form of the domain `Cooler.C17.Dom`: distinct valid cell names; with per-cell tables the
+same keys in both dictionaries and the common three main columns in every table -/
+def domB (bins : BinsArg) (pixels : List (String × Pixels)) : Bool :=
+  decide (pixels.map Prod.fst).Nodup && (pixels.map Prod.fst).all validName &&
+  match bins with
+  | .common _ => true
+  | .perCell d =>
+    !d.isEmpty && decide (d.map Prod.fst).Nodup &&
+      (sortNames (d.map Prod.fst) == sortNames (pixels.map Prod.fst)) &&
+      d.all fun p => p.2.rows == commonRows (.perCell d)
+
+/-- column names a data frame can carry besides the main three -/
+def extrasOk (bins : BinsArg) (pixels : List (String × Pixels)) : Bool :=
+  (binsDictOf bins pixels).all fun p => p.2.extras.all fun c => !mainCols.contains c.1
 
 end Cooler.Scool
